@@ -305,7 +305,7 @@ pub fn def(tier: Tier) -> CheckDef {
     CheckDef {
         id: "C03",
         level: "exploration",
-        rule: "type-directed generated programs, 70% of them perturbed by 1-2 type-breaking mutations at random nodes (12 kinds: a subterm replaced by a literal / type / lambda, wrapped in an operator, a condition, an application, ...), a third also erased (omitted annotations, `_`), plus every closed explicit program up to size 5 (quick) / 6 (thorough) over a small vocabulary (exhaustive), plus every program `(a : p A) => (r : p B = a; r)` for same-former integer (and all pairs of comparison) index expressions A, B over {x, y, 1, 2} under a lambda-bound family p (exhaustive: conversion inside types); oracle = whenever gram accepts, an independent checker for explicit terms (R-core, conversion by NbE) must find the *elaborated* term well scoped and well typed with a type convertible with the reported one; and an explicit program that R-core rejects must be rejected by gram; the evidence counts, per typing rule, the programs both sides reject for that rule; non-trivial = accepted and perturbed, or accepted with an application and a binder, or an enumerated program of size >= 3; distinct by text",
+        rule: "type-directed generated programs, 70% of them perturbed by 1-2 type-breaking mutations at random nodes (12 kinds: a subterm replaced by a literal / type / lambda, wrapped in an operator, a condition, an application, ...), a third also erased (omitted annotations, `_`), plus every closed explicit program up to size 5 (quick) / 6 (thorough) over a small vocabulary (exhaustive), plus every program `(a : p A) => (r : p B = a; r)` for same-former integer (and all pairs of comparison) index expressions A, B over {x, y, 1, 2} under a lambda-bound family p (exhaustive: conversion inside types), plus C04's exhaustive family of identity functions annotated `T1 -> T2` for all pairs of small type expressions (conditionals with every comparison operator, type-level functions, definition groups of different lengths); oracle = whenever gram accepts, an independent checker for explicit terms (R-core, conversion by NbE) must find the *elaborated* term well scoped and well typed with a type convertible with the reported one; and an explicit program that R-core rejects must be rejected by gram; the evidence counts, per typing rule, the programs both sides reject for that rule; non-trivial = accepted and perturbed, or accepted with an application and a binder, or an enumerated program of size >= 3; distinct by text",
         assumptions: vec![
             "the typing rules are those of R-core (see C05); elaborated terms that still contain unresolved holes are outside the explicit checker's domain and are counted, not judged",
             "fuel exhaustion of the reference checker and aborts of gram's checker on divergent perturbed programs are inconclusive",
@@ -344,6 +344,32 @@ pub fn def(tier: Tier) -> CheckDef {
                 name: "indexed-family",
                 rounds: 1,
                 run: Box::new(|ctx, _| indexed_family_part(ctx)),
+                replay: None,
+            },
+            Part {
+                name: "coercions",
+                rounds: 1,
+                run: Box::new(|ctx, _| {
+                    // C04's exhaustive family of identity functions annotated `T1 -> T2`: gram may
+                    // accept one only if the reference checker does.
+                    let (total, ntypes) = crate::checks::c04::for_each_coercion(ctx.shard, ctx.nshards, |decls, call, _| {
+                        let text = format!("{decls}{call}");
+                        match check_text(ctx, None, &text, true) {
+                            Ok(Verdict::AcceptedSound) => ctx.nontrivial_enumerated(|| format!("(accepted) {text}")),
+                            Ok(_) => {}
+                            Err(f) => {
+                                ctx.settle(Err(f));
+                                if ctx.peek_violations() >= 6 {
+                                    return false;
+                                }
+                            }
+                        }
+                        true
+                    });
+                    ctx.evaluated(total);
+                    ctx.exhaustive("coercions");
+                    ctx.note(&format!("coercions: an identity function annotated `(b : bool) -> (x : int) -> T1 -> T2` for every pair of {ntypes} small type expressions (see C04)"));
+                }),
                 replay: None,
             },
             Part {
